@@ -198,6 +198,12 @@ func c04Run(c c04Case, wp *World, d *core.Dir, flags int, phase string) *core.Fa
 		return nil
 	}
 
+	// a block (used or not) whose end lies beyond year 9999 is a configuration error gopki may
+	// report for that file; refusing is then acceptable, issuing is judged by the rules below
+	if !hasCert && (!representable(c.Cert) || (c.UseProf && !representable(c.Prof))) {
+		return nil
+	}
+
 	// expected instants
 	var nbFixed bool
 	var nb int64
